@@ -369,3 +369,16 @@ func entryEdges(fn *ssa.Function) []cfgx.Edge {
 	}
 	return out
 }
+
+// isEqOrNeq: an ==/!= comparison.
+func isEqOrNeq(bo *ssa.BinOp) bool { return bo.Op == token.EQL || bo.Op == token.NEQ }
+
+// eqEdges returns the edges on which the operands of an ==/!= comparison are
+// known equal / known different, whichever operator the source uses.
+func eqEdges(bo *ssa.BinOp) (eq, ne []cfgx.Edge) {
+	t, f := cfgx.CondEdges(bo)
+	if bo.Op == token.NEQ {
+		return f, t
+	}
+	return t, f
+}
